@@ -254,7 +254,29 @@ class B:
         self.stale_possible = True
         return "runtime_operand:" + form
 
-KINDS = ["sleep", "led_args", "range", "analog_write", "len_safe", "flash_pattern", "glyph", "sensor_model", "runtime_operand"]
+    def s_param_shadow(self):
+        """a helper parameter that shares its name with a top-level constant: inside the helper the name means the argument.
+        P uses a fresh parameter name (alpha-renaming), P' the colliding one; the helper is called with other values."""
+        base = self.draw(st.sampled_from(["top", "lvl", "max", "min", "len"]))
+        used = getattr(self, "shadow_names", set())
+        g = base if base not in used else self.nm(base)
+        used.add(g); self.shadow_names = used
+        h, p = self.nm("k"), self.nm("p")
+        k1 = self.draw(st.integers(0, 40)); k2 = self.draw(st.integers(0, 40).filter(lambda v: v != k1)); k3 = self.draw(st.integers(0, 12))
+        use = self.draw(st.sampled_from(["sleep({})", "analog_write(5, {})", "RANGE", "led.blink({}, 1)", "led.set_brightness({})", "mon.write({} + 1)", "sleep({} * 2)"]))
+        if "led." in use and not getattr(self, "rled", None):
+            self.rled = True
+            self.both("body", ["led = Led(9)"])
+        for m, n in (("lit", p), ("var", g)):
+            body = [f"    for q in range({n} % 5):", "        mon.write(q)"] if use == "RANGE" else ["    " + use.format(n)]
+            self.pre[m] += [f"{g} = {k1}", f"def {h}({n}):"] + body + [f"    mon.write({n})"]
+        self.both("body", [f"{h}({k2})", f"mon.write({g})"])
+        if self.draw(st.booleans()):
+            self.both("loop", [f"{h}({k3})"])
+        self.stale_possible = True
+        return "param_shadow"
+
+KINDS = ["param_shadow", "sleep", "led_args", "range", "analog_write", "len_safe", "flash_pattern", "glyph", "sensor_model", "runtime_operand"]
 
 
 @st.composite
